@@ -182,7 +182,7 @@ CHECKS = {
                      # the same statements on the Core evaluator (the one compared with the implementation on generated programs)
                      'Pangaea.C12.if_true_core', 'Pangaea.C12.if_false_else_core', 'Pangaea.C12.if_false_none_core', 'Pangaea.C12.if_cond_raises_core',
                      'Pangaea.C12.or_decided_core', 'Pangaea.C12.and_decided_core', 'Pangaea.C12.or_undecided_core', 'Pangaea.C12.and_undecided_core',
-                     'Pangaea.C12.guard_false_core', 'Pangaea.C12.guard_defer_core', 'Pangaea.C12.guard_return_core', 'Pangaea.C12.guard_raises_core'],
+                     'Pangaea.C12.guard_false_core', 'Pangaea.C12.guard_defer_core', 'Pangaea.C12.guard_return_core', 'Pangaea.C12.guard_raises_core', 'Pangaea.C12.not_core'],
         'harness': ['C12', 'C12core', 'C12sweep'],
         'shards': 8,
         'spec_is_function': True,
